@@ -48,9 +48,8 @@ def run(rep, tier):
         def hook(spec, name, fv, args, kw, node, facts=facts):
             if name == "isinstance" and len(args) == 2 and args[0] is code:
                 t = args[1]
-                if t is types.CodeType:
-                    return True
-                return False
+                # the native object is a types.CodeType and nothing else; a tuple of classes is the usual disjunction
+                return any(x is types.CodeType for x in (t if isinstance(t, tuple) else (t,)))
             if name == "hasattr" and len(args) == 2 and args[0] is code and isinstance(args[1], str):
                 return bool(facts.get(args[1], True))
             return NotImplemented
